@@ -27,7 +27,11 @@ Pipeline (spec/C05_Search.tla decides every verdict):
      policy of a returned result is read only after several later searches have run (a returned
      result must stay valid).  Representations also include problems that keep their graph as
      parallel lists and hand out the stored action list itself, and problems that define no actions /
-     transitions at absorbing states (actions(s) raises there);
+     transitions at absorbing states (actions(s) raises there), actions handed out as one-shot iterators,
+     single-entry DictDistributions whose mass is a float sum (0.9999999999999999); (g) solution paths of
+     more than 1000 states, modelled structurally as corridor edges (field len: the real run is on the
+     expanded graph, expand_corridors / collapse); DRIFT-level probe: the policy of a result should not
+     depend on the caller emptying the returned path list (outside the statement);
   4. TLC, mode "judge": every distinct real outcome is one Return event; the clauses of the
      statement (Fails) are evaluated by the spec -> VIOLATION per failing clause;
   5. TLC, mode "trace": for a third (quick) / an eighth (thorough) of the runs the visit events
@@ -496,7 +500,7 @@ def _guarded(fn, planner_name, out):
         finally:
             signal.setitimer(signal.ITIMER_VIRTUAL, 0)
             signal.signal(signal.SIGVTALRM, old)
-    except (_Timeout, Budget, MemoryError, RecursionError) as e:
+    except (_Timeout, Budget, MemoryError) as e:
         NONTERM["n"] += 1
         out.update(kind="error", site=f"{planner_name}.plan_on", exc="no-termination",
                    note=f"{type(e).__name__}: {e}"[:200])
@@ -715,7 +719,7 @@ def _hashable(x):
 # judging
 # --------------------------------------------------------------------------------------------
 def gcore(g):
-    return {k: g[k] for k in ("N", "K", "avail", "nxt", "cost", "goal", "start", "hc", "cbase", "cbig") if k in g}
+    return {k: g[k] for k in ("N", "K", "avail", "nxt", "cost", "goal", "start", "hc", "cbase", "cbig", "len") if k in g}
 
 
 def graph_for_tlc(g):
@@ -724,6 +728,7 @@ def graph_for_tlc(g):
     d.setdefault("cbig", "1")
     d["cbig"] = str(d["cbig"])           # far beyond 32 bits: a name for TLC, the number for Python
     d["then"] = g.get("then", 0)         # the graph the same planner object plans next (index in the batch)
+    d["len"] = g.get("len") or [[1] * g["K"] for _ in range(g["N"])]     # corridor edges (see expand_corridors)
     d["cfgs"] = g["cfgs"]
     return d
 
@@ -936,25 +941,97 @@ def revision_graph(rng):
     return g
 
 
-def corridor_graph(rng):
-    """A solution path longer than 1000 states (deeper than the interpreter's default recursion limit)."""
-    n = rng.randint(1080, 1200)
-    g = dict(N=n, K=2, cbase=0, cbig="1", hc=[0] * n, cfgs=[], then=0)
-    g["avail"] = [[1, 1 if rng.random() < 0.5 else 0] for _ in range(n)]
-    g["nxt"] = [[min(s + 2, n), rng.randint(1, s + 1)] for s in range(n)]      # forward by one | back or stay
-    g["cost"] = [[rng.choice([1, 1, 2]), rng.choice([0, 1])] for _ in range(n)]
-    g["goal"] = [0] * (n - 1) + [1]
-    g["start"] = 1
-    return g
+def stretch_graph(rng):
+    """A small abstract graph some of whose edges are corridors of more than 1000 real edges (field len):
+    every solution path is longer than the interpreter's default recursion limit."""
+    while True:
+        g = rand_graph(rng, rng.choice([3, 4, 5]), 2)
+        g["cbase"], g["cbig"] = 0, "1"
+        g["cost"] = [[rng.choice([0, 1, 1, 2]) for _ in range(2)] for _ in range(g["N"])]
+        s0 = g["start"] - 1
+        o = py_oracle(g)
+        if g["goal"][s0] or o["togo"][s0] >= INF:
+            continue
+        g["len"] = [[1, 1] for _ in range(g["N"])]
+        for a in range(2):
+            g["len"][s0][a] = rng.randint(1050, 1150)
+        g["hc"], g["cfgs"], g["then"] = [0] * g["N"], [], 0
+        return g
+
+
+def expand_corridors(g):
+    """The real graph behind a graph with corridor edges, and the map real state -> (abstract state | None)."""
+    N, K = g["N"], g["K"]
+    avail = [list(r) for r in g["avail"]]
+    nxt = [list(r) for r in g["nxt"]]
+    cost = [list(r) for r in g["cost"]]
+    goal = list(g["goal"])
+    chain = {}
+    for s in range(N):
+        for a in range(K):
+            m = g["len"][s][a]
+            if not g["avail"][s][a] or m == 1:
+                continue
+            ids = []
+            target = g["nxt"][s][a]
+            for k in range(m - 1):
+                ids.append(len(avail) + 1)
+                avail.append([1] + [0] * (K - 1))
+                nxt.append([0] + [1] * (K - 1))
+                cost.append([g["cost"][s][a]] + [0] * (K - 1))
+                goal.append(0)
+            for k, rid in enumerate(ids):
+                nxt[rid - 1][0] = ids[k + 1] if k + 1 < len(ids) else target
+            nxt[s][a] = ids[0]
+            chain[(s + 1, a + 1)] = ids
+    gx = dict(N=len(avail), K=K, avail=avail, nxt=nxt, cost=cost, goal=goal, start=g["start"], cbase=0, cbig="1",
+              hc=[0] * len(avail), cfgs=[], then=0)
+    return gx, chain
+
+
+def collapse(g, chain, real):
+    """Real result on the expanded graph -> result on the abstract graph: a corridor must be walked from its
+    first to its last state with its single action; anything else gives the invalid action 0."""
+    if real["kind"] != "path" or not real["path"]:
+        return real
+    path, acts = real["path"], real["acts"]
+    apath, aacts = [path[0]], []
+    i = 0
+    while i < len(path) - 1:
+        s, a = path[i], acts[i] if i < len(acts) else 0
+        ids = chain.get((s, a)) if s <= g["N"] else None
+        if s > g["N"]:                     # a path that starts or continues inside a corridor out of turn
+            aacts.append(0)
+            apath.append(path[i + 1] if path[i + 1] <= g["N"] else 0)
+            i += 1
+        elif ids is None:
+            aacts.append(a)
+            apath.append(path[i + 1] if path[i + 1] <= g["N"] else 0)
+            i += 1
+        else:
+            seg = path[i + 1:i + 1 + len(ids)]
+            sega = acts[i + 1:i + 1 + len(ids)]
+            ok = seg == ids and all(x == 1 for x in sega) and i + 1 + len(ids) < len(path)
+            aacts.append(a if ok else 0)
+            j = i + 1 + len(ids) if ok else i + 1
+            apath.append(path[j] if j < len(path) and path[j] <= g["N"] else 0)
+            i = j
+    return dict(real, path=apath, acts=aacts, visited=[v for v in real["visited"] if v <= g["N"]], visits=[])
 
 
 LONG_CFGS = [dict(alg="astar", tie="lifo", rnd=0, hk="zero"), dict(alg="astar", tie="fifo", rnd=1, hk="zero"),
-             dict(alg="bfs", tie="fifo", rnd=0, hk="zero")]
+             dict(alg="astar", tie="random", rnd=0, hk="zero"), dict(alg="bfs", tie="fifo", rnd=0, hk="zero"),
+             dict(alg="bfs", tie="fifo", rnd=1, hk="zero")]
 
 
-def plan_long(rng):
-    g = corridor_graph(rng)
-    return [(g, cfg, rand_rep(rng), rng.randrange(2 ** 31) if cfg["rnd"] else None, rng.randrange(2 ** 30)) for cfg in LONG_CFGS]
+def plan_long(rng, n_graphs=3):
+    jobs = []
+    for _ in range(n_graphs):
+        g = stretch_graph(rng)
+        for cfg in LONG_CFGS:
+            randomized = cfg["rnd"] == 1 or (cfg["alg"] == "astar" and cfg["tie"] == "random")
+            jobs.append((g, cfg, rand_rep(rng), rng.randrange(2 ** 31) if randomized else None, rng.randrange(2 ** 30)))
+    return jobs
 
 
 def plan_big(rng, n_graphs, runs_per_cfg):
@@ -1129,10 +1206,14 @@ def judge_cases(ctx, graphs, plan, *, tamper=None, quiet_counts=False, trace_eve
         if key not in where:
             jgraphs.append(bg)
             where[key] = len(jgraphs)
-        real = run_real(bg, cfg, [0] * bg["N"], brep, sd, bs)
+        if bg.get("len"):                # corridor edges: the real run is on the expanded graph
+            gx, chain = expand_corridors(bg)
+            real = collapse(bg, chain, run_real(gx, cfg, [0] * gx["N"], brep, sd, bs))
+        else:
+            real = run_real(bg, cfg, [0] * bg["N"], brep, sd, bs)
         ctx.evaluations += 1
         bruns.append({"gid": where[key], "alg": cfg["alg"], "res": real, "cfg": cfg, "rep": brep, "seed": sd,
-                      "build_seed": bs, "graph": bg, "family": "long" if bg["N"] > 1000 else "big"})
+                      "build_seed": bs, "graph": bg, "family": "long" if bg.get("len") else "big"})
     if bruns and not quiet_counts:
         ctx.count("runs_on_the_many_revisions_family(30-40 states)", len(bruns))
     for x in extra:
